@@ -138,7 +138,72 @@ def own_distribution_decoders(ctx: Ctx):
            construct="MDAMDecoder._one_to_many_logits:stage-order")
 
 
+OUT_OF_PLACE = {"masked_fill", "masked_scatter", "scatter", "scatter_add", "index_fill", "index_add", "index_copy", "clamp", "clamp_min", "clamp_max", "fill",
+                "where", "add", "sub", "mul", "div", "log_softmax", "softmax", "exp", "log", "neg", "nan_to_num", "masked_select", "logical_and", "logical_or", "logical_not"}
+
+
+def no_discarded_tensor_results(ctx: Ctx):
+    """C10.k in the code that turns logits into the distribution (rl4co/utils/decoding.py and every decoder module of the model zoo /
+    nn package), no statement consists of an out-of-place tensor method whose result is thrown away: `log_p.masked_fill(~mask,
+    -inf)` as a statement does nothing -- the in-place write it was meant to be (`log_p[~mask] = -inf`, `masked_fill_`) never
+    happens and infeasible actions keep their probability.  Expected count on today's tree: zero (positive controls in the corpus)."""
+    import ast
+    mods = [mi for mi in sorted(ctx.repo.modules.values(), key=lambda m: m.relpath)
+            if mi.relpath == DEC or (mi.relpath.startswith("rl4co/models/") and ("decoder" in mi.relpath or "decoding" in mi.relpath or mi.relpath.endswith("nn/attention.py")))]
+    if len(mods) < 8:
+        raise AnalysisError(f"C10.k: only {len(mods)} decoding / decoder modules found (13 confirmed by hand)")
+    n_stmt = 0
+    bad = []
+    for mi in mods:
+        for st in ast.walk(mi.tree):
+            if isinstance(st, ast.Expr):
+                n_stmt += 1
+                v = st.value
+                if isinstance(v, ast.Call) and isinstance(v.func, ast.Attribute) and v.func.attr in OUT_OF_PLACE \
+                        and not (isinstance(v.func.value, ast.Name) and v.func.value.id in ("torch", "F", "log", "np", "math")):
+                    bad.append((mi.relpath, st.lineno, ast.unparse(v)[:70]))
+    ctx.extra["expression_statements_scanned"] = n_stmt
+    for rel, ln, txt in bad:
+        ctx.ob("C10.k", f"{rel}:{txt.split('(')[0]}:result-discarded", False, f"{rel}:{ln}",
+               f"`{txt}` is a statement of its own: the method returns a new tensor and leaves its receiver unchanged -- the masking / clamping it spells never takes effect",
+               construct=f"{rel}:discarded:{txt.split('(')[0]}")
+    ctx.ob("C10.k", "decoders:no-discarded-out-of-place-result", not bad, DEC, f"{len(mods)} modules, {n_stmt} expression statements scanned, {len(bad)} discarded tensor results")
+
+
+def shaping_settings_stored_as_given(ctx: Ctx):
+    """C10.l the settings that shape the distribution (temperature, top_p, top_k, mask_logits, tanh_clipping) reach process_logits as
+    the caller gave them: DecodingStrategy.__init__ stores each as `self.x = x`, or substitutes a default for `None` only.  A
+    value test in the constructor (`top_k if top_k > 1 else 0`) silently turns a legal setting (top_k = 1: only the most likely
+    action may be sampled) into "filter off"."""
+    import ast
+    fi = ctx.repo.get_function(DEC, "DecodingStrategy.__init__")
+    if fi is None:
+        raise AnalysisError("DecodingStrategy.__init__ not found")
+    ctx.fn(fi)
+    want = ("temperature", "top_p", "top_k", "mask_logits", "tanh_clipping")
+    seen = {}
+    for st in ast.walk(fi.node):
+        if isinstance(st, ast.Assign) and len(st.targets) == 1 and isinstance(st.targets[0], ast.Attribute) and isinstance(st.targets[0].value, ast.Name) and st.targets[0].value.id == "self" \
+                and st.targets[0].attr in want:
+            seen.setdefault(st.targets[0].attr, []).append(st)
+    if set(seen) != set(want):
+        raise AnalysisError(f"DecodingStrategy.__init__: settings not stored: {sorted(set(want) - set(seen))}")
+    for nm in want:
+        for st in seen[nm]:
+            v = st.value
+            plain = isinstance(v, ast.Name) and v.id == nm
+            none_default = isinstance(v, ast.IfExp) and isinstance(v.test, ast.Compare) and len(v.test.ops) == 1 and isinstance(v.test.ops[0], (ast.Is, ast.IsNot)) \
+                and isinstance(v.test.left, ast.Name) and v.test.left.id == nm and isinstance(v.test.comparators[0], ast.Constant) and v.test.comparators[0].value is None \
+                and any(isinstance(b, ast.Name) and b.id == nm for b in (v.body, v.orelse))
+            ok = plain or none_default
+            ctx.ob("C10.l", f"DecodingStrategy.__init__:self.{nm}:stored-as-given", ok, f"{DEC}:{st.lineno}",
+                   f"`{ast.unparse(st)[:80]}`" + ("" if ok else " -- the stored setting is not the one given: a range of explicit values is replaced before process_logits sees it"),
+                   construct=f"DecodingStrategy.__init__:setting:{nm}")
+
+
 def run(ctx: Ctx):
+    no_discarded_tensor_results(ctx)
+    shaping_settings_stored_as_given(ctx)
     fi = ctx.repo.get_function(DEC, "process_logits")
     ctx.fn(fi)
     for nm in ("modify_logits_for_top_k_filtering", "modify_logits_for_top_p_filtering"):
